@@ -248,6 +248,49 @@ def planRechunk (old new : List (List Nat)) (itemsize thr limitBytes : Nat) (ord
     let gst := thr * (numberOfBlocks old + numberOfBlocks new)
     planLoop thr Lnum itemsize gst new old true orders []
 
+/-! ## `_balance_chunksizes` (`rechunk(..., balance=True)`) -/
+
+def insertSorted (x : Nat) : List Nat → List Nat
+  | [] => [x]
+  | y :: ys => if x ≤ y then x :: y :: ys else y :: insertSorted x ys
+
+def isort : List Nat → List Nat
+  | [] => []
+  | x :: xs => insertSorted x (isort xs)
+
+/-- `np.median(chunks).astype(int)`: the middle element, or the mean of the two middle ones, truncated -/
+def medianFloor (l : List Nat) : Nat :=
+  let s := isort l
+  if s.length % 2 = 1 then s.getD (s.length / 2) 0
+  else (s.getD (s.length / 2 - 1) 0 + s.getD (s.length / 2) 0) / 2
+
+def minL : List Nat → Nat
+  | [] => 0
+  | x :: xs => xs.foldr min x
+
+/-- `_get_chunks(n, chunksize)` for `chunksize > 0` -/
+def getChunks (n L : Nat) : List Nat :=
+  List.replicate (n / L) L ++ (if n % L ≠ 0 then [n % L] else [])
+
+/-- `possible_chunks[np.argmin([max(c) - min(c) for c in possible_chunks])]` (first minimum) -/
+def argminSpread : List (List Nat) → Option (List Nat)
+  | [] => none
+  | c :: cs =>
+    match argminSpread cs with
+    | none => some c
+    | some b => if maxL c - minL c ≤ maxL b - minL b then some c else some b
+
+/-- `_balance_chunksizes(chunks)` (after `fix: … a chunk length of 0 is not a candidate for balancing`) -/
+def balanceChunks (cs : List Nat) : List Nat :=
+  let m := medianFloor cs
+  let eps := m / 2
+  let nc := if 2 * minL cs ≤ maxL cs then cs.length - 1 else cs.length
+  let lo := max (m - eps) 1
+  let cands := (List.range (m + eps + 1 - lo)).map (fun i => getChunks (sum cs) (lo + i))
+  match argminSpread (cands.filter (fun c => c.length == nc)) with
+  | none => cs
+  | some c => c
+
 /-! ## reading a plan element by element (n-d rechunk = one lookup per axis) -/
 
 /-- element `q` of the concatenation of the pieces: `(old block, offset inside it)` -/
